@@ -198,6 +198,22 @@ static void special_structures(unsigned long long& unit)
 					cases++;
 				}
 	}
+	// (d) integrands that are infinite at a limit: the location and count clauses are about arbitrary integrands
+	{
+		struct Sing { const char* name; std::function<double(double)> f; double a, b; };
+		std::vector<Sing> sg = {{"1/sqrt(x) on [0,1]", [](double x) { return 1 / std::sqrt(x); }, 0, 1}, {"log(x) on [0,2]", [](double x) { return std::log(x); }, 0, 2},
+								{"1/(1-x) on [0,1]", [](double x) { return 1 / (1 - x); }, 0, 1}, {"1/sqrt(x) on [1,0]", [](double x) { return 1 / std::sqrt(x); }, 1, 0},
+								{"1/(x(3-x)) on [0,3]", [](double x) { return 1 / (x * (3 - x)); }, 0, 3}};
+		for(auto& g : sg)
+			for(int depth : {0, 1, 2, 3, 6})
+				for(double eps : {1e-300, 1e-6, 1e2})
+				{
+					if(!mc::mine(unit++)) continue;
+					std::string ck = std::string(g.name) + ",eps=" + mc::dec(eps) + ",depth=" + std::to_string(depth);
+					structural("infinite_at_a_limit", ck, ck, g.f, g.a, g.b, eps, depth, evals);
+					cases++;
+				}
+	}
 	mc::count("special_structure_cases", cases);
 	mc::count("evaluations", cases);
 	mc::count("distinct_nontrivial", cases);
